@@ -29,9 +29,10 @@ TBegin == /\ IsEvent("begin")
              /\ LET al == Tr[l].attrs
                     at == [f \in AllFiles(t) |->
                              LET hit == {i \in 1..Len(al) : al[i].f = <<f.l, f.r>>} IN
-                             IF hit = {} THEN [own |-> "ok", grp |-> "ok", link |-> FALSE, perm |-> "ok"]
+                             IF hit = {} THEN [own |-> "ok", grp |-> "ok", link |-> FALSE, perm |-> "ok", dperm |-> "ok"]
                              ELSE LET a == al[CHOOSE i \in hit : TRUE] IN
-                                  [own |-> a.own, grp |-> a.grp, link |-> a.link, perm |-> IF "perm" \in DOMAIN a THEN a.perm ELSE "ok"]]
+                                  [own |-> a.own, grp |-> a.grp, link |-> a.link, perm |-> IF "perm" \in DOMAIN a THEN a.perm ELSE "ok",
+                                   dperm |-> IF "dperm" \in DOMAIN a THEN a.dperm ELSE "ok"]]
                     \* the settings in force are not told by the harness: they are the result of the recorded setter CALLS
                     \* (in call order, since the last reset) folded by Security!ApplySetters
                     sec == FaultsOf(t, at, ApplySetters(NoFlags, Tr[l].setters)) IN
